@@ -225,9 +225,11 @@ def check_parallel(prog, an, rep, cn, name, f, c, decl):
         rep.ok("C07.R5", cons + ":empty", fsite(f), "all data accesses are inside loops guarded by size >= block; size 0 falls through to return 1", cfg=cn)
 
 
-def check_lanes(prog_ship, rep, cn, f, block, has_tweak, expect_bytes, lane_mode=False, elbytes=4):
+def check_lanes(prog_ship, rep, cn, f, block, has_tweak, expect_bytes, lane_mode=False, elbytes=4, field_src=None, field_sink=None):
     cons = construct(f)
-    if lane_mode:
+    if lane_mode and field_src:
+        L = Lanes(f, {}, field_src=field_src, field_sink=field_sink)
+    elif lane_mode:
         L = Lanes(f, {}, out_arg=0, lane_sources={1: ("ctr", elbytes)})
     else:
         srcs = {1: ("in", block)}
